@@ -262,9 +262,26 @@ func (m *c44Model) restore(ts int64) (events []string) {
 	return events
 }
 
+// c44MaxFor is the largest hold duration any operation can configure.
+const c44MaxFor = 2 * c44D
+
+func c44Cap(v, c int64) int64 {
+	if v > c {
+		return c
+	}
+	return v
+}
+
 // key is the canonical abstract model state. Times are relative to Now (plus the parity of Now,
-// which decides the sample values); a stored sample older than the outage tolerance is dropped
-// because time only advances and a restore at ts >= Now only looks at [ts-tolerance, ts].
+// which decides the sample values). Ages are capped where the cap provably cannot be observed:
+//   - activation age: only ever compared with a 'for' duration (<= c44MaxFor) and ages only
+//     grow, so all ages >= c44MaxFor are equivalent;
+//   - resolved age: only compared with the retention (dropped when > retention), ages only grow,
+//     so all ages > retention are equivalent;
+//   - a stored ALERTS_FOR_STATE sample older than the outage tolerance is never looked at again
+//     (time only advances and a restore at ts >= Now reads [ts-tolerance, ts]); of a younger one
+//     only its age and the pending time it records (sample time - activation, compared with
+//     'for') matter.
 func (m *c44Model) key() string {
 	var b strings.Builder
 	fmt.Fprintf(&b, "for=%d kff=%d par=%d restored=%v n=%d", m.For, m.Kff, m.Now%2, m.Restored, m.EvalsSinceRestart)
@@ -272,9 +289,9 @@ func (m *c44Model) key() string {
 		if a := m.Alerts[l]; a != nil {
 			fmt.Fprintf(&b, " %s:%s", l, a.St)
 			if a.St == c44Resolved {
-				fmt.Fprintf(&b, ",res=%d", m.Now-a.ResolvedAt)
+				fmt.Fprintf(&b, ",res=%d", c44Cap(m.Now-a.ResolvedAt, c44Ret+1))
 			} else {
-				fmt.Fprintf(&b, ",act=%d", m.Now-a.ActiveAt)
+				fmt.Fprintf(&b, ",act=%d", c44Cap(m.Now-a.ActiveAt, c44MaxFor))
 				if a.AbsentSince >= 0 {
 					fmt.Fprintf(&b, ",abs=%d", m.Now-a.AbsentSince)
 				}
@@ -284,7 +301,7 @@ func (m *c44Model) key() string {
 			if s.Stale {
 				fmt.Fprintf(&b, " st%s:%d,stale", l, m.Now-s.T)
 			} else {
-				fmt.Fprintf(&b, " st%s:%d,%d", l, m.Now-s.T, m.Now-s.V)
+				fmt.Fprintf(&b, " st%s:%d,spent=%d", l, m.Now-s.T, c44Cap(s.T-s.V, c44MaxFor))
 			}
 		}
 	}
